@@ -409,7 +409,7 @@ def export_json(stats, verbose=0, category_filter=None, merchant_filter=None):
             'num_months': stats['num_months'],
             'income_total': round(income_total, 2),
             'transfers_total': round(transfers_total, 2),
-            'net_cash_flow': round(stats['cash_flow'], 2) if income_total > 0 else None,  # transfers excluded
+            'net_cash_flow': round(stats['cash_flow'], 2),  # transfers excluded; negative without income, as in every other format
         },
         'by_month': {month: {'total': round(total, 2)}
                      for month, total in sorted(by_month.items())},
